@@ -11,7 +11,9 @@ THEOREMS = [
     "IsoVerif.Props.C01.C01_witness_absent_tracked_counter",
     "IsoVerif.Props.C01.C01_witness_after_remove",
     "IsoVerif.Props.C01.C01_witness_after_panic",
+    "IsoVerif.Props.C01.C01_witness_stale_dep_panic",
     "IsoVerif.Props.C01.C01_statement_false",
+    "IsoVerif.Props.C01.C01_stage1_partial",
 ]
 HARNESS = ("hx_pico", {"HX_ENGINE": "c01"})
 DRIVER = "drv_pico"
@@ -21,7 +23,12 @@ TECHNIQUE = ("Lean 4 theorems over an executable model of pico (fuel-indexed exe
              "+ direct oracle: every call's value = from-scratch evaluation on the current sources")
 LEVEL_TEXT = ""
 LEVEL_NOTE = ""
-PARTIAL = []
+PARTIAL = [
+    "C01_statement (all programs, all histories) is false of today's code: F1 (absent singleton / never-written tracked counter then first write), F2 (remove, inner reader re-run alone) and the caught-panic case are open known findings with witness theorems",
+    "C01_stage1_partial carries nesting depth 0 only (Flat: no body calls a memoised function) and only histories whose calls are clean (CleanCalls: the from-scratch evaluation of each call reads no absent source / singleton / tracked counter); within that class every operation is covered, including gc, retain and tracked fields",
+    "nested calls (stages 2 and 3 of DESIGN section 8) are not carried by a theorem yet: for them C01 rests on the correspondence + oracle and on the witness theorems",
+    "intern_ref appears only as ref functions (kind 3) whose value is the callee's value; intern_value and MemoRef parameters are not in the model",
+]
 ASSUMPTIONS = [
     "user functions are programs of the model's expression language (reads of keyed sources, singletons, tracked fields; nested calls with u64 / SourceId / no parameter; add, eq, if, half); values are naturals below 2^64",
     "DefaultHasher collisions between distinct keys / parameters do not occur",
